@@ -65,10 +65,10 @@ impl CidqC {
         if frame.retire_prior_to > frame.sequence {
             return "err PROTOCOL_VIOLATION retiring-unissued".into();
         }
+        const MAX_PENDING_RETIRED_CIDS: u64 = CidQueue::LEN as u64 * 10;
         match self.q.insert(frame) {
             Ok(None) => {}
             Ok(Some((retired, _reset_token))) => {
-                const MAX_PENDING_RETIRED_CIDS: u64 = CidQueue::LEN as u64 * 10;
                 if (self.pending.len() as u64)
                     .saturating_add(retired.end.saturating_sub(retired.start))
                     > MAX_PENDING_RETIRED_CIDS
@@ -81,6 +81,9 @@ impl CidqC {
                 return format!("err CONNECTION_ID_LIMIT_ERROR limit {} {}", self.pending(), self.state());
             }
             Err(InsertError::Retired) => {
+                if (self.pending.len() as u64).saturating_add(1) > MAX_PENDING_RETIRED_CIDS {
+                    return format!("err CONNECTION_ID_LIMIT_ERROR too-many-retired {} {}", self.pending(), self.state());
+                }
                 self.pending.push(frame.sequence);
                 return format!("ok discarded {} {}", self.pending(), self.state());
             }
